@@ -80,8 +80,23 @@ var recorders = map[string]func(*recorder, *rand.Rand, int, string) int{}
 
 const scale = 65536
 
+// classifyNonFinite: non-finite results are recorded by class instead of as "not comparable" (set by recordBatch for the models
+// whose samples it gives non-finite features).
+var classifyNonFinite bool
+
 // scaled returns round(v * 2^16) as an integer TLC can hold, or a sentinel for values outside the range / non-finite values.
 func scaled(v float64) int64 {
+	if classifyNonFinite {
+		// class codes (Trace_Batch.tla: ClassCode): which non-finite value it is, is part of the result
+		switch {
+		case math.IsNaN(v):
+			return 2147483644
+		case math.IsInf(v, 1):
+			return 2147483646
+		case math.IsInf(v, -1):
+			return 2147483645
+		}
+	}
 	if math.IsNaN(v) || math.IsInf(v, 0) || math.Abs(v) >= 16000 {
 		return 2147483647
 	}
@@ -354,6 +369,25 @@ func recordBatch(rec *recorder, rng *rand.Rand, trials int, repo string) int {
 						d[k] = float32(rng.Intn(65)-32) / 16
 					}
 					samples[i][in] = d
+				}
+			}
+			classifyNonFinite = name == "pruned_dense"
+			if name == "pruned_dense" {
+				// every sample gets an exactly zero feature or a non-finite one (or both), at random positions
+				for i := range samples {
+					d := samples[i][sm.inNames[0]]
+					for k := range d {
+						switch rng.Intn(6) {
+						case 0:
+							d[k] = 0
+						case 1:
+							d[k] = float32(math.Inf(1))
+						case 2:
+							d[k] = float32(math.Inf(-1))
+						case 3:
+							d[k] = float32(math.NaN())
+						}
+					}
 				}
 			}
 			if name == "softmax_inner_axis" && n > 1 {
